@@ -109,6 +109,22 @@ def run(ctx):
         probe = rng.choice(PROBES)
         mode = rng.choice(["shared-both", "shared-both", "shared-parser", "shared-lexer", "new-after"])
         cases.append((tuple(hist), probe, mode))
+    # accumulation: long runs of ONE kind of input (state that only builds up — counters, caches, stacks — needs many steps of the same kind), and
+    # single extreme inputs (deep nesting, long chains), each followed by probes that use parentheses, calls, lists and lambdas
+    OPEN = ["(a eq", "f.g(", "((a", "x/any(t: t eq", "(½", "a in (1, (2", "not (a eq 1", "concat(a, (b", "x/any(t: t/y/all(u: (u eq"]
+    PAREN_PROBES = ["(a eq 1)", "f.g(1)", "x in (1, 2)", "not (a eq 1)", "((a eq 1) and (b eq 2)) or (c eq 3)", "x/any(t: t eq 1)", "concat(a, concat(b, c)) eq 'x'", "a eq 1"]
+    EXTREME = ["(" * 40 + "a eq 1" + ")" * 40, "(" * 200, ")" * 50, "not " * 60 + "a", "a" + " and a" * 150, "f.g(" * 40 + "1" + ")" * 40, "x in (" + "(1, " * 30 + "2" + ")" * 31,
+               "'" + "x''" * 300, "a/" * 200 + "b eq 1", "-" * 100 + "1 eq 1"]
+    for rep in (40, 120) if not ctx.thorough else (40, 120, 400):
+        for bad in OPEN + POOL_BAD[:8] + POOL_OK[:4]:
+            for probe in PAREN_PROBES[:: (1 if ctx.thorough else 3)]:
+                cases.append((tuple([bad] * rep), probe, "shared-both"))
+        cases.append((tuple(rng.choice(OPEN) for _ in range(rep)), rng.choice(PAREN_PROBES), "shared-lexer"))
+        cases.append((tuple(rng.choice(OPEN) for _ in range(rep)), rng.choice(PAREN_PROBES), "shared-parser"))
+    for ext in EXTREME:
+        for probe in PAREN_PROBES[::2]:
+            cases.append(((ext,), probe, "shared-both"))
+        cases.append(((), ext, "shared-both"))      # the extreme input itself on fresh instances (model = fresh)
     def real_hist(c):
         hist, probe, mode = c
         lx, ps = ODataLexer(), ODataParser()
@@ -203,7 +219,7 @@ def run(ctx):
 
     return common.finish(
         ctx,
-        rule="random histories of 1..8 parse calls (valid filters with long shared-prefix paths and geo/plain function pairs, syntax / tokenising / function errors) "
+        rule="accumulation histories (40 / 120 repetitions of one failing or valid input, incl. nine kinds of input that leave a parenthesis open) and ten extreme single inputs (nesting depth 40-200, chains of 60-150 operators), each followed by parenthesised probes; random histories of 1..8 parse calls (valid filters with long shared-prefix paths and geo/plain function pairs, syntax / tokenising / function errors) "
              "on shared lexer+parser, shared parser only, shared lexer only, or new instances after the history, followed by a probe; interleaved tokenizers; "
              "AliasRewriter with used instances; probe digests in fresh subprocesses under several PYTHONHASHSEED values and three import orders; "
              "non-trivial = history of at least two calls",
